@@ -21,6 +21,15 @@ def run(tier, seed):
                                  "--cpus", str(rng.choice([2, 4, 8])), "--keys", str(rng.choice([4, 5, 6])),
                                  "--ttl", "1", "--end", "drop", "--flushpct", "14",
                                  "--maximages", "300" if tier == "quick" else "1500", "--refill", "1"]))
+    # MC: write-behind / journal / retirement protocol, every crash image of every reachable state
+    mc_viol = []
+    mcs = [ce.mc_model(rd, "MCWriteBehind", "MCWriteBehind_quick_warm.cfg" if tier == "quick" else "MCWriteBehind_full_warm.cfg",
+                       ["Partition", "ExactAtQuiescence", "MetaMatches"])]
+    mc_states = sum(r.distinct for r in mcs)
+    mc_trans = sum(r.generated for r in mcs)
+    for r in mcs:
+        if r.violation:
+            mc_viol.append({"what": "model: " + r.violation, "replay": v.save_replay(PROP.lower(), "mc.out", r.out[-5000:]), "key": "mc"})
     viol, st, traces = ce.run_and_validate(PROP, fxv, rd, jobs, INV)
     # refill scenario verdicts are recorded by the workload itself
     refills = 0
@@ -34,7 +43,7 @@ def run(tier, seed):
                     viol.append({"what": "refill after deleting everything: %s" % json.dumps(e)[:300],
                                  "replay": keep, "key": "refill"})
     cov = {
-        "states": st["states"], "transitions": st["transitions"],
+        "states": st["states"] + mc_states, "transitions": st["transitions"] + mc_trans, "mc_states": mc_states,
         "traces_validated_against_impl": st["traces"],
         "evaluations": st["flushes"] + st["images_real"], "distinct_nontrivial": st["traces"],
         "rule": "one trace = one seeded churn workload with mixed extent sizes (1-3 blocks) on a 20-32 block "
@@ -45,6 +54,7 @@ def run(tier, seed):
         "samples": ce.sample_of(traces[0]) if traces else [],
         "acknowledged_flushes": st["flushes"], "refill_scenarios": refills,
     }
+    viol = mc_viol + viol
     return {"level": "model_checking", "coverage": cov, "violations": viol,
             "assumptions": ["snapshot accessor (hook) exposes live records' sector/length and the free runs"]}
 
